@@ -19,7 +19,8 @@ repeatability of the real code): every public function of the property's quantif
 consecutive calls with the same numpy seed and the SAME argument objects: byte-wise snapshot (values, dtype,
 shape, strides, the base buffer of strided views; pandas index/columns/dtypes; Grid cell values and geometry;
 Catchment state; transform parameters) of every argument before and after each call, and deep bit-wise
-equality of the two results.
+equality of the two results; then a third call with OTHER data of the same kinds (same receiver): the first
+result object must still hold its snapshot and share no buffer with the third result.
 
 Cases: input kinds = C-contiguous 64-bit (float64 / int64), strided view (every other element of a larger
 buffer), reversed (1-D, negative stride) or Fortran-ordered (2-D), float32 (float64 for integer data), int64,
@@ -301,6 +302,37 @@ def same(H, a, b, depth=0):
     if hasattr(a, "get_xydata"):
         return same(H, np.asarray(a.get_xydata()), np.asarray(b.get_xydata()))
     return None      # opaque object (figure artists ...): not compared
+
+
+def leaves(H, x, depth=0):
+    """the numeric buffers reachable from a result or an argument"""
+    np, pd = H.np, H.pd
+    if isinstance(x, np.ndarray):
+        return [x] if x.dtype != object and x.size else []
+    if isinstance(x, pd.Series):
+        v = np.asarray(x.values)
+        return [v] if v.dtype != object and v.size else []
+    if isinstance(x, pd.DataFrame):
+        out = []
+        for j in range(x.shape[1]):
+            out += leaves(H, x.iloc[:, j], depth + 1)
+        return out
+    if depth > 5:
+        return []
+    if isinstance(x, (list, tuple)):
+        return [v for e in x for v in leaves(H, e, depth + 1)]
+    if isinstance(x, dict):
+        return [v for e in x.values() for v in leaves(H, e, depth + 1)]
+    if isinstance(x, H.grid.Grid):
+        return leaves(H, x._data, depth + 1)
+    if isinstance(x, H.grid.Catchment):
+        return [v for k in ("_flowdir", "_idxinlets", "_idxcells_area", "_idxcells_area_filled", "_idxcells_boundary",
+                            "_xycells_boundary", "_flowpathlengths") for v in leaves(H, getattr(x, k, None), depth + 1)]
+    return []
+
+
+def overlap(H, xs, ys):
+    return any(H.np.shares_memory(a, b) for a in xs for b in ys)
 
 
 @contextlib.contextmanager
@@ -788,6 +820,8 @@ def build_entries(H):
                                                [rng.randint(1, 9), rng.randint(1, 9)]]), "int")])
 
     # ---------------- sutils
+    add("sutils.ppos", lambda nval, cst: S.ppos(nval, cst),
+        lambda rng: [Arg("nval", rng.randint(2, 30), "fixed"), Arg("cst", rng.choice([0., 0.3, 0.5]), "fixed")], "fixed")
     add("sutils.acf", lambda data: S.acf(data, maxlag=3), lambda rng: [Arg("data", holes(rng, vec(rng, 25)))])
     add("sutils.acf/idx", lambda data, idx: S.acf(data, maxlag=2, idx=idx),
         lambda rng: [Arg("data", vec(rng, 25)), Arg("idx", np.array([rng.random() < 0.8 for _ in range(25)]), "fixed")])
@@ -909,8 +943,9 @@ def build_entries(H):
         lambda rng: [Arg("self", fgrid(rng, rng.choice(gtypes)), "fixed"), Arg("idxcells", gcells(rng), "int")])
     add("Grid.cell2rowcol", lambda self, idxcells: self.cell2rowcol(idxcells),
         lambda rng: [Arg("self", fgrid(rng, rng.choice(gtypes)), "fixed"), Arg("idxcells", gcells(rng), "int")])
-    add("Grid.neighbours", lambda self: self.neighbours(9),
-        lambda rng: [Arg("self", fgrid(rng, rng.choice(gtypes)), "fixed")], "fixed")
+    add("Grid.neighbours", lambda self, idxcell: self.neighbours(idxcell),
+        lambda rng: [Arg("self", fgrid(rng, rng.choice(gtypes)), "fixed"), Arg("idxcell", rng.randrange(42), "fixed")],
+        "fixed")
     add("Grid.slice", lambda self, xyslice: self.slice(xyslice),
         lambda rng: [Arg("self", fgrid(rng, rng.choice(gtypes)), "fixed"), Arg("xyslice", gxy(rng))])
     add("Grid.__getitem__", lambda self, index: self[index],
@@ -920,8 +955,8 @@ def build_entries(H):
     add("Grid.__setitem__", lambda self, index, value: (self.__setitem__(index, value), self.data)[1],
         lambda rng: [Arg("self", fgrid(rng, rng.choice(gtypes)), "receiver"), Arg("index", np.array([3, 11, 40]), "int"),
                      Arg("value", vec(rng, 3))])
-    add("Grid.clip", lambda self: self.clip(1.2, 1.3, 5.1, 4.2),
-        lambda rng: [Arg("self", fgrid(rng, rng.choice(gtypes)), "fixed")], "fixed")
+    add("Grid.clip", lambda self, x0: self.clip(x0, 1.3, 5.1, 4.2),
+        lambda rng: [Arg("self", fgrid(rng, rng.choice(gtypes)), "fixed"), Arg("x0", rng.uniform(0.2, 2.8), "fixed")], "fixed")
     add("Grid.clone", lambda self: self.clone(np.float32),
         lambda rng: [Arg("self", fgrid(rng, rng.choice(gtypes)), "fixed")], "fixed")
     add("Grid.to_dict", lambda self: self.to_dict(),
@@ -974,8 +1009,8 @@ def build_entries(H):
         lambda rng: [Arg("self", catch(rng), "fixed"), Arg("grid", coarse(rng, rng.choice(gtypes)), "fixed")], "fixed")
     add("Catchment.intersect/filled", lambda self, grid: self.intersect(grid, filled=True),
         lambda rng: [Arg("self", catch(rng), "fixed"), Arg("grid", coarse(rng), "fixed")], "fixed")
-    add("Catchment.isin", lambda self: (self.isin(41), self.isin(0, filled=True)),
-        lambda rng: [Arg("self", catch(rng), "fixed")], "fixed")
+    add("Catchment.isin", lambda self, cell: (self.isin(cell), self.isin(cell, filled=True)),
+        lambda rng: [Arg("self", catch(rng), "fixed"), Arg("cell", rng.randrange(42), "fixed")], "fixed")
     add("Catchment.extent", lambda self: self.extent(), lambda rng: [Arg("self", catch(rng), "fixed")], "fixed")
     add("Catchment.to_dict", lambda self: self.to_dict(), lambda rng: [Arg("self", catch(rng), "fixed")], "fixed")
     add("Catchment.__add__", lambda self, other: self + other,
@@ -1168,6 +1203,40 @@ def oracle(ctx, H, rec):
                             f"the first call of {ent.name} {'succeeds' if errs[0] is None else 'fails'} and the second "
                             f"{'fails' if errs[1] else 'succeeds'} on the same arguments: {errs[1] or errs[0]}",
                             {"function": ent.name, "kinds": kinds_used, "errors": errs, "numpy_seed": seed})
+            # a LATER call with other arguments must not reach back into the first result (a work buffer allocated
+            # once and returned by every call passes "two calls give equal results" but fails this)
+            if errs[0] is None:
+                r1 = results[0]
+                snap1 = sn.snap(r1)
+                kw3 = {}
+                for a in ent.gen(rng):
+                    if a.name == "self" or a.nature == "receiver":
+                        kw3[a.name] = kw[a.name]                      # same receiver, other data
+                    elif a.nature == "fixed":
+                        kw3[a.name] = a.value
+                    else:
+                        kw3[a.name], ka = variant(np, pd, a.value, kinds_used.get(a.name, "c64"), a.nature)
+                        keep.append(ka)
+                shared_in = [v for n in kw3 if kw3[n] is kw.get(n) for v in leaves(H, kw[n])]
+                np.random.seed(seed + 1)
+                with warnings.catch_warnings(), quiet_stdout():
+                    warnings.simplefilter("ignore")
+                    try:
+                        r3 = ent.fn(**kw3)
+                    except Exception:      # noqa
+                        r3 = None
+                stats["calls"] += 1
+                l1 = leaves(H, r1)
+                if not overlap(H, l1, shared_in + [v for n in kw for v in leaves(H, kw[n])]):
+                    hard, soft = sn.diff(snap1, sn.snap(r1), "result")
+                    shares = overlap(H, l1, leaves(H, r3))
+                    if hard or soft or shares:
+                        ctx.finding(f"{ent.name}/result_changed_by_later_call",
+                                    f"the result of the first call of {ent.name} "
+                                    + ("was modified by" if hard or soft else "shares its buffer with the result of")
+                                    + " a later call with other arguments"
+                                    + (f": {(hard + soft)[0]}" if hard or soft else ""),
+                                    {"function": ent.name, "kinds": kinds_used, "numpy_seed": seed})
             ok = errs[0] is None
             if not ok:
                 stats["rejected"] += 1
